@@ -79,8 +79,7 @@ def trivialCast (rng : Ty → Range) (v : PyVal) (τ : Ty) : CastR :=
   -- isinstance(value, type_)
   let inst : Bool := match v, τ with
     | .int _, .integer => true
-    | .bool _, .integer => true
-    | .bool _, .boolean => true
+    | .bool _, .boolean => true          -- a bool is an `int` instance, but only `Boolean` keeps it (fix 0ee0d87)
     | .float, .double => true
     | .str _, .string => true
     | .datetime _ _ _, .dateTime => true
